@@ -319,6 +319,96 @@ def subprocess_observations():
     return obs
 
 
+# ------------------------------------------------------------------ Cli.tla: the tool as a front end of the factory functions
+CLI_VALUES = {'version': {'int': '5', 'micro_upper': 'M4', 'micro_lower': 'm4', 'big': '41', 'junk': 'x'},
+              'error': {'L': 'L', 'lower_m': 'm', 'H': 'H', 'dash': '-', 'bad': 'x'},
+              'mode': {'byte': 'byte', 'upper_numeric': 'NUMERIC', 'bad': 'foo'},
+              'pattern': {'two': '2', 'nine': '9', 'junk': 'x'}, 'encoding': {'utf8': 'utf-8'}, 'count': {'two': '2', 'junk': 'x'}}
+CLI_CONTENT = {'digits': ['0123456789'], 'two_words': ['Hello', 'World'], 'text': ['Segno']}
+API_VALUES = {'version': {'none': None, 'int': '5', 'micro_upper': 'M4', 'micro_lower': 'm4', 'big': '41', 'junk': 'x'},
+              'error': {'none': None, 'L': 'L', 'M': 'M', 'H': 'H'}, 'mode': {'none': None, 'byte': 'byte', 'numeric': 'numeric'},
+              'mask': {'none': None, 'two': 2, 'nine': 9}, 'encoding': {'none': None, 'utf8': 'utf-8'}, 'count': {'none': None, 'two': 2},
+              'micro': {'none': None, 'true': True, 'false': False}}
+
+
+def cli_factory_obs(vec):
+    """one vector of Cli.tla: the tool is run in-process with the flags; the reference is the API call the SPECIFICATION arrives at"""
+    segno = common.use_repo()
+    fl, api = vec['flags'], vec['api']
+    argv = []
+    for k, flag in (('version', '--version'), ('error', '--error'), ('mode', '--mode'), ('pattern', '--pattern'), ('encoding', '--encoding'), ('count', '--symbol-count')):
+        if fl[k] != 'none':
+            argv += [flag, CLI_VALUES[k][fl[k]]]
+    if fl['micro'] != 'none':
+        argv.append('--micro' if fl['micro'] == 'micro' else '--no-micro')
+    if not fl['boost']:
+        argv.append('--no-error-boost')
+    if fl['seq']:
+        argv.append('--seq')
+    words = CLI_CONTENT[fl['content']]
+    o = {'flags': fl, '_vec': {'kind': 'txt', 'route': 'cli factory flags', 'opts': sorted(k for k in fl if fl[k] not in ('none', True, False) or k in ('boost', 'seq') and fl[k] != (k == 'boost'))},
+         '_what': 'cli ' + ' '.join(argv + words), 'ref_call': api}
+    tmp = tempfile.mkdtemp(prefix='c12f_', dir=common.workdir('C12_tmp'))
+    try:
+        p = os.path.join(tmp, 'out.txt')
+        status, out, err, tb = run_cli(argv + ['--output', p] + words)
+        files = sorted(x for x in os.listdir(tmp))
+        h = hashlib.sha256()
+        for x in files:
+            h.update(x.encode() + b'\0' + open(os.path.join(tmp, x), 'rb').read() + b'\0')
+        o['cli'] = {'exit': status if isinstance(status, int) else 99, 'files': len(files), 'sha': h.hexdigest() if files else '', 'stderr_len': len(err), 'traceback': bool(tb)}
+        # ---- reference: the call of the specification
+        ref = {'status': 'none', 'files': 0, 'sha': ''}
+        if api.get('fn') in ('make', 'make_sequence'):
+            kw = {'version': API_VALUES['version'][api['version']], 'error': API_VALUES['error'][api['error']], 'mode': API_VALUES['mode'][api['mode']],
+                  'mask': API_VALUES['mask'][api['mask']], 'encoding': API_VALUES['encoding'][api['encoding']], 'boost_error': api['boost']}
+            if api['fn'] == 'make':
+                kw['micro'] = API_VALUES['micro'][api['micro']]
+            else:
+                kw['symbol_count'] = API_VALUES['count'][api['count']]
+            tmp2 = tempfile.mkdtemp(prefix='c12g_', dir=common.workdir('C12_tmp'))
+            try:
+                qr = getattr(segno, api['fn'])(' '.join(words), **kw)
+                qr.save(os.path.join(tmp2, 'out.txt'))
+                files2 = sorted(os.listdir(tmp2))
+                h = hashlib.sha256()
+                for x in files2:
+                    h.update(x.encode() + b'\0' + open(os.path.join(tmp2, x), 'rb').read() + b'\0')
+                ref = {'status': 'ok', 'files': len(files2), 'sha': h.hexdigest()}
+            except ValueError:
+                ref = {'status': 'ValueError', 'files': 0, 'sha': ''}
+            except Exception as e:  # noqa
+                ref = {'status': type(e).__name__, 'files': 0, 'sha': ''}
+            finally:
+                shutil.rmtree(tmp2, ignore_errors=True)
+        o['ref'] = ref
+    finally:
+        shutil.rmtree(tmp, ignore_errors=True)
+    return o
+
+
+def cli_factory_part(rep, tier):
+    cfg = 'Cli_quick.cfg' if tier == 'quick' else 'Cli_thorough.cfg'
+    out, st = common.run_tlc('Cli', cfg=cfg, workers=4, timeout=1500, xmx='6g', coverage=True)
+    rep.add_design('Cli', cfg, out, st, 'the tool as a front end of make / make_sequence: Parse, MakeCode, Emit; invariants MicroVersionUsable, NoMicroByDefault, '
+                   'DashIsNone, KeywordsMatchFactory; export of <flags, API call> vectors')
+    vecs = common.parse_vectors(out)
+    rep.notes['cli_factory_vectors_exported_by_tlc'] = len(vecs)
+    with mp.get_context('fork').Pool(common.NCPU) as pool:
+        obs = pool.map(cli_factory_obs, vecs, chunksize=max(1, len(vecs) // 128))
+    rep.evaluations += len(obs)
+    verdicts, st = common.validate_observations(rep.pid, 'Trace_Cli', obs, tag='cli')
+    rep.add_trace_stats(st, len(obs))
+    for o in obs:
+        v = verdicts[o['tid']]
+        fails = sorted(c for (p, c) in v['fails'])
+        rep.keys.add(o['_what'])
+        rep.sample({'route': o['_what'], 'spec': v['facts'].get('spec_out'), 'api_call': v['facts'].get('api'), 'exit': o['cli']['exit'], 'reference': o['ref']['status'], 'tlc_fails': fails})
+        if fails:
+            rep.violation({'kind': 'routes', 'module': 'props_routes', 'cli_vector': {'flags': o['flags'], 'api': o['ref_call']}, 'what': o['_what'], 'failing_clauses': fails,
+                           'got': o['cli'], 'ref': o['ref']}, f"{o['_what']}: exit {o['cli']['exit']}, reference {o['ref']['status']}; fails {fails}")
+
+
 def run_c12(rep, tier):
     cfg = 'Routes_quick.cfg' if tier == 'quick' else 'Routes_thorough.cfg'
     out, st = common.run_tlc('Routes', cfg=cfg, workers=4, timeout=1500, xmx='6g', coverage=True)
@@ -330,6 +420,7 @@ def run_c12(rep, tier):
     obs += other_observations(tier)
     obs += subprocess_observations()
     rep.evaluations = len(obs)
+    cli_factory_part(rep, tier)
     verdicts, st = common.validate_observations(rep.pid, 'Trace_Routes', obs, tag='routes')
     rep.add_trace_stats(st, len(obs))
     for o in obs:
@@ -356,6 +447,16 @@ def run_c12(rep, tier):
 
 def replay(pid, d):
     common.use_repo()
+    if d.get('cli_vector'):
+        o = cli_factory_obs(d['cli_vector'])
+        print('route   :', o['_what'])
+        print('tool    :', o['cli'], ' reference:', o['ref'])
+        verdicts, _ = common.validate_observations(pid + '_replay', 'Trace_Cli', [o], shards=1, tag='cli')
+        fails = sorted(c for (p, c) in verdicts[o['tid']]['fails'])
+        print('verdict :', fails)
+        if fails:
+            print(f'VIOLATION property={pid} replay=(this file)')
+        return 1 if fails else 0
     if not d.get('vector'):
         print('not replayable individually:', d.get('what'))
         return 1
